@@ -132,7 +132,15 @@ class LexModel:
             if t is not None:
                 bm = base_of_member(t)
                 if bm and bm[1] == "pos":
-                    if n.k == "UnaryOperator" and n.get("op") == "++":
+                    is_adv = (n.k == "UnaryOperator" and n.get("op") == "++") or \
+                             (n.get("op") == "+=" and C.const_of(n.child(1)) == 1)
+                    if n.get("op") == "=":
+                        r_ = n.child(1).strip_all_casts()
+                        if r_.k == "BinaryOperator" and r_.get("op") == "+" and C.const_of(r_.child(1)) == 1:
+                            l_ = r_.child(0).strip_all_casts()
+                            if l_.k == "MemberExpr" and base_of_member(l_) == bm:
+                                is_adv = True
+                    if is_adv:
                         sites.append({"kind": "advance", "node": n, "base": bm[0], "ok": bm[0] in g})
                     elif n.k == "UnaryOperator" and n.get("op") == "--":
                         sites.append({"kind": "retreat", "node": n, "base": bm[0], "ok": None})
